@@ -613,15 +613,17 @@ fn pick_limit(r: &mut Rng, c: &Container, dist: &mut Dist) -> Option<u64> {
     if let Container::Extended(_, cs) = c {
         for k in cs { if let Chunk::Iccp(p) | Chunk::Exif(p) | Chunk::Xmp(p) = k { sizes.push(p.len() as u64); } }
     }
-    let l = match r.below(8) {
+    let l = match r.below(9) {
         0 | 1 => None,
         2 => Some(0),
         3 => Some(u64::MAX),
         4 => Some(r.below(32)),
+        // limits at and above 2^32 whose low 32 bits are small (a limit must not be narrowed to 32 bits anywhere)
+        8 => { let k = r.below(8); Some(*r.pick(&[1u64 << 32, (1 << 32) + 1, (1 << 33) + k, 1 << 40, (1 << 32) + (1 << 31)])) }
         _ if !sizes.is_empty() => { let s = *r.pick(&sizes); Some(match r.below(3) { 0 => s.saturating_sub(1), 1 => s, _ => s + 1 }) }
         _ => Some(1 << 32),
     };
-    dist.add(match l { None => "limit:default", Some(0) => "limit:0", Some(u64::MAX) => "limit:usize_max", _ => "limit:near_payload_sizes" });
+    dist.add(match l { None => "limit:default", Some(0) => "limit:0", Some(u64::MAX) => "limit:usize_max", Some(v) if v >= 1 << 32 => "limit:above_2pow32", _ => "limit:near_payload_sizes" });
     l
 }
 
